@@ -420,6 +420,13 @@ class FuncRef:
         self.key = key
 
 
+class StaticHelper:
+    """a @staticmethod of a class of the module under verification that has no contract (executed in place when called)"""
+
+    def __init__(self, mod, cls, fdef):
+        self.mod, self.cls, self.fdef = mod, cls, fdef
+
+
 class SuperRef:
     pass
 
@@ -674,6 +681,12 @@ class Run:
     def st_Pass(self, s):
         pass
 
+    def st_Break(self, s):
+        raise BreakSig()
+
+    def st_Continue(self, s):
+        raise ContinueSig()
+
     def st_Expr(self, s):
         if isinstance(s.value, ast.Constant):
             return
@@ -848,7 +861,17 @@ class Run:
             except ContinueSig:
                 pass
             except BreakSig:
-                raise Unsupported("break in a loop under an invariant")
+                # `break` in an arbitrary iteration: the loop is left at once - execution continues after the loop from the
+                # state at the break (invariant at the start of this iteration + the body's path up to here); the loop's exit
+                # condition "everything visited" is NOT assumed on this path, ghosts are not stepped
+                if getattr(s, 'orelse', None):
+                    raise Unsupported("break in a loop with an else clause")
+                lc.exited = True
+                lc.broke = True
+                self.last_loop = lc
+                self.loop_stack = self.loop_stack[:-1]
+                self.cur_loop = self.loop_stack[-1] if self.loop_stack else None
+                return
             for cname, f in lspec.body.items():
                 self.oblige(f"{fkey}/loop{ordinal}/body/{cname}", self.clause(cname, f, lc), kind='loop_body', clause=cname,
                             function=fkey)
@@ -1074,6 +1097,16 @@ class Run:
             if o is self.env.get('self') and self._source_method(attr) is not None:
                 return Bound(o, attr)       # a method of the class without a contract: executed in place at the call
             raise Unsupported(f"line {self.cur_line}: attribute {o.cls}.{attr}")
+        if isinstance(o, ClassRef):
+            mod = self.modstack[-1]
+            cinfo = mod.classes.get(o.name)
+            if cinfo is not None and attr in cinfo[1]:
+                fdef = cinfo[1][attr]
+                if any(isinstance(d, ast.Name) and d.id == 'staticmethod' for d in fdef.decorator_list):
+                    key = self.resolve_method(o.name, attr) if o.name in CLASSES else None
+                    if key is not None:
+                        return FuncRef(key)
+                    return StaticHelper(mod, o.name, fdef)
         if isinstance(o, SuperRef):
             return Bound(o, attr)
         if isinstance(o, sym.SOutArr) and attr == 'shape':
@@ -1604,6 +1637,15 @@ class Run:
                     return self.call_contract(FUNCS[key], None, args, kwargs)
                 return self.call_contract(FUNCS[key], recv, args, kwargs)
             return pylib.call_method(self, recv, f.name, args, kwargs, node)
+        if isinstance(f, StaticHelper):
+            if not self._may_inline(f.fdef):
+                raise Unsupported(f"static helper {f.cls}.{f.fdef.name} without a contract (not loop-free)")
+            self.trusted.add(f"helper {f.cls}.{f.fdef.name} has no contract: its body (read from the source) is executed in place")
+            self.inline_depth += 1
+            try:
+                return self.inline_body(f.mod, f.cls, f.fdef, None, args, kwargs)
+            finally:
+                self.inline_depth -= 1
         if isinstance(f, ClassRef):
             return self.construct(f.name, args, kwargs)
         if isinstance(f, FuncRef):
@@ -1635,6 +1677,29 @@ class Run:
             if isinstance(n, ast.FunctionDef) and n is not fdef:
                 return False
         return True
+
+    def inline_module_function(self, dotted, args, kwargs):
+        """ixai.<module>.<function> without a contract: executed in place (loop-free bodies, depth <= 3)"""
+        parts = dotted.split('.')
+        fname = parts[-1]
+        import os
+        path = '/'.join(parts[:-1])
+        cand = [path + '.py', path + '/__init__.py']
+        for rel in cand:
+            if os.path.exists(os.path.join(frontend.REPO, rel)):
+                m = frontend.module(rel)
+                fdef = m.functions.get(fname)
+                if fdef is None and fname in m.imports and m.imports[fname].startswith('ixai.') and m.imports[fname] != dotted:
+                    return self.inline_module_function(m.imports[fname], args, kwargs)
+                if fdef is None or not self._may_inline(fdef):
+                    return _NO_HELPER
+                self.trusted.add(f"helper {dotted} has no contract: its body (read from the source) is executed in place")
+                self.inline_depth += 1
+                try:
+                    return self.inline_body(m, None, fdef, None, args, kwargs)
+                finally:
+                    self.inline_depth -= 1
+        return _NO_HELPER
 
     def _source_method(self, name):
         if not self.clsstack or not self.modstack or self.clsstack[-1] is None:
